@@ -27,6 +27,10 @@ pub struct Scn {
     pub bystanders: Vec<(String, u32)>,
     /// record lengths of each successively rolled file
     pub rolls: Vec<Vec<u32>>,
+    /// injected errors at rotation-step sites (profile C07-fault); a failed
+    /// roll is retried once and the history continues
+    #[serde(default)]
+    pub faults: Vec<kernel::FaultSpec>,
     pub sched_seed: u64,
 }
 
@@ -40,7 +44,7 @@ pub fn generate(rng: &mut Rng, tier: Tier) -> Scn {
             (0..k).map(|_| super::f::gen_len(rng).min(3000)).collect()
         })
         .collect();
-    Scn { roller, pre_archives, bystanders, rolls, sched_seed: rng.next_u64() }
+    Scn { roller, pre_archives, bystanders, rolls, faults: vec![], sched_seed: rng.next_u64() }
 }
 
 const AT: Attr = Attr { prop: "C07", data: "C07-I1", other_prop: "C07", other: "C07-I4", sig: "" };
@@ -81,7 +85,7 @@ pub fn execute(scn: &Scn, opts: &ExecOpts) -> Outcome {
     let model = r::setup_tree(&rscn, &names);
     let sink = Arc::new(Sink::default());
     let sched = opts.sched.clone().unwrap_or(Sched::Prng { seed: scn.sched_seed, policy: kernel::Policy::RoundRobin });
-    let k = common::begin(RunCfg { sched, trace: opts.trace, start_ns: common::T0_NS, tz: None, faults: vec![], crash: None, rand_script: vec![], step_cap: 20_000 });
+    let k = common::begin(RunCfg { sched, trace: opts.trace, start_ns: common::T0_NS, tz: None, faults: scn.faults.clone(), crash: None, rand_script: vec![], step_cap: 20_000 });
     let rolls = scn.rolls.clone();
     let roller_spec = scn.roller.clone();
     let names2 = names.clone();
@@ -108,6 +112,7 @@ pub fn execute(scn: &Scn, opts: &ExecOpts) -> Outcome {
             fs::write(&names2.active, &bytes).unwrap();
             model.active = bytes;
             kernel::note("roll", &format!("{} bytes={}", ri, model.active.len()));
+            let fired_before = kernel::current().map(|k| k.faults_fired_count()).unwrap_or(0);
             match roller.roll(&names2.active) {
                 Ok(()) => {
                     r::wait_for_bg_rotation();
@@ -122,8 +127,32 @@ pub fn execute(scn: &Scn, opts: &ExecOpts) -> Outcome {
                     sink2.probe("rolls_completed", 1);
                 }
                 Err(e) => {
-                    sink2.fail("C07", "C07-E0", "roll-failed", format!("roll {} failed although nothing was injected: {:#}", ri + 1, e));
-                    return;
+                    let injected = kernel::current().map(|k| k.faults_fired_count() > fired_before).unwrap_or(false);
+                    if !injected {
+                        sink2.fail("C07", "C07-E0", "roll-failed", format!("roll {} failed although nothing was injected: {:#}", ri + 1, e));
+                        return;
+                    }
+                    // a failed roll: whatever it left behind is the new starting point; the
+                    // rolled file must still be there, and rolling it again must work
+                    sink2.probe("rolls_failed_by_injection", 1);
+                    if !names2.active.exists() {
+                        sink2.fail("C07", "C07-I1", "rolled-file-lost-by-failed-roll", format!("roll {} failed ({:#}) and the file being rolled is gone", ri + 1, e));
+                        return;
+                    }
+                    model.resync(&names2);
+                    match roller.roll(&names2.active) {
+                        Ok(()) => {
+                            r::wait_for_bg_rotation();
+                            model.on_roll();
+                            if !model.check(&names2, &sink2, AT, false, &format!("after retrying roll {}", ri + 1)) {
+                                return;
+                            }
+                        }
+                        Err(e2) => {
+                            sink2.fail("C07", "C07-E0", "retry-failed", format!("retrying roll {} failed although the fault is gone: {:#}", ri + 1, e2));
+                            return;
+                        }
+                    }
                 }
             }
             kernel::point("op.done");
@@ -200,6 +229,21 @@ pub fn shrink(s: &Scn) -> Vec<Scn> {
                 c.rolls[i][j] = 3;
                 out.push(c);
             }
+        }
+    }
+    out
+}
+
+
+/// One variant per rotation-step site of the fault-free execution, with an error injected there.
+pub fn fault_variants(scn: &Scn, hits: &[(String, u32)]) -> Vec<Scn> {
+    let errnos = [libc::EACCES, libc::EIO, libc::ENOSPC];
+    let mut out = vec![];
+    for (k, (site, nth)) in hits.iter().enumerate() {
+        if r::FAULT_SITES.contains(&site.as_str()) && site != "rf.open" {
+            let mut c = scn.clone();
+            c.faults = vec![kernel::FaultSpec { site: site.clone(), nth: *nth, errno: errnos[k % errnos.len()] }];
+            out.push(c);
         }
     }
     out
